@@ -500,7 +500,7 @@ int simk_pthread_create(pthread_t *th, const pthread_attr_t *attr, void *(*fn)(v
   int num = (int)thread_tasks.size();
   reap_detached();
   Task *t = spawn(c->proc, [fn, arg]() { Task *me = cur(); me->retval = fn(arg); });
-  t->is_thread = true;
+  t->is_thread = true; t->lib_thread = true;
   t->detached = detach == PTHREAD_CREATE_DETACHED;
   slot_alloc(t);
   thread_tasks.push_back(t->id);
